@@ -52,6 +52,8 @@ GCompact == /\ "compact" \in Acts /\ En_CompBegin(st) /\ Idle(st) /\ st.spc \in 
 Sels == (SUBSET Series) \ {{}}
 GDelete(S, lo, hi, open) ==
             /\ "delete" \in Acts /\ En_DelBegin(st) /\ Idle(st) /\ st.spc \in {"idle", "tmp"}
+            \* profile switch "effdel": only deletes that hit points stored in a TSM file (a tombstone is written)
+            /\ ("effdel" \notin Acts \/ \E f \in st.fset : HasTarget(f, KeysOf(S), lo, hi))
             /\ st' = DelAll(st, S, lo, hi)
             /\ Log([a |-> "delete", sel |-> S, lo |-> lo, hi |-> hi, open |-> open])
 GReopen == /\ "reopen" \in Acts /\ AllIdle(st)
